@@ -21,6 +21,8 @@ PALETTE = {
     "unknown": lambda N: N("~unknown~"),
     "metadata": lambda N: N("metadata"),
     "extra-attr": lambda N: _with_attr(N("title", content="t")),
+    "metadataProvider": lambda N: N("metadataProvider"),  # names that merely resemble "metadata" are not opaque
+    "additionalMetadata": lambda N: N("additionalMetadata"),
     "dataset": lambda N: N("dataset"),                    # invalid on its own (children missing): several errors
 }
 
